@@ -1,5 +1,6 @@
 #!/bin/bash
 # usage: matrix.sh [out.tsv] — run every check against every incoming seed in scratch worktrees; writes seeded/matrix.tsv
+# ONLY=<regex> restricts the seeds (matched against seeded/_incoming/<ID>/<V>)
 # (runs from whatever copy of /verif it lives in, so it can be started with `vp run` from a snapshot)
 ROOT=$(cd "$(dirname "$0")/.." && pwd)
 cd $ROOT
@@ -8,7 +9,7 @@ MX=/tmp/mx$$
 mkdir -p $MX
 [ -x engine/egfacts/target/release/egfacts ] || (cd engine/egfacts && CARGO_NET_OFFLINE=true cargo +nightly build --release --offline >/dev/null 2>&1)
 IDS=$(python3 -c "import json;print(' '.join(c['property_id'] for c in json.load(open('MANIFEST.json'))['checks']))")
-ls -d seeded/_incoming/*/[A-Z] | awk '{print NR%5, $0}' > $MX/jobs.txt
+ls -d seeded/_incoming/*/[A-Z] | grep -E "${ONLY:-.}" | awk '{print NR%5, $0}' > $MX/jobs.txt
 : > $MX/result.tsv
 for w in 0 1 2 3 4; do
  ( grep "^$w " $MX/jobs.txt | while read _ job; do
